@@ -4,17 +4,16 @@
    A. Histories obtained by parsing raw operations satisfy every boolean
       well-formedness hypothesis the core theorems use.
         lowered_wf_basic : raw_only rh -> wf_keys /\ hist_kinds_ok /\ wf_gleaves
-        lowered_wf       : raw_only rh -> as_distinct rh -> dec_distinct rh ->
-                           ... /\ wf_strict
-      The two side conditions are needed (module ParseFindings, vm_compute):
-      the parse model -- like dig itself -- accepts As(new(I), new(I)) with a
-      Group option (the group result then lists the key twice and the value is
-      submitted twice: [raw_dupas]) and a decorator func(A) (A, A)
-      ([raw_dupdec]).  [provide_parse_nd] / [decorate_parse_nd]: apart from
-      that, the keys of one group result are pairwise distinct.
-      Raw restatements: C02_raw, C14_raw, C03_raw, keys_rules_raw (no key-kind
-      hypothesis left), prov_raw, C09_raw, C12_raw, C11_raw (the two
-      distinctness side conditions left).
+        lowered_wf       : raw_only rh -> ... /\ wf_strict
+      No side condition is left.  The two that used to be needed (As(new(I),
+      new(I)) with a Group option; a decorator func(A) (A, A)) were genuine
+      defects of dig and are fixed: the parse stage rejects the first with
+      error 42 ([raw_dupas], so [provide_parse_nd] needs no hypothesis: the
+      keys of one group result are pairwise distinct), and [decorate] rejects
+      the second ([raw_dupdec]; [wf_strict] no longer asks a decorator's keys
+      to be distinct).  Module ParseFindings records both rejections.
+      Raw restatements: C02_raw, C14_raw, C03_raw, keys_rules_raw, prov_raw,
+      C09_raw, C12_raw, C11_raw (no key hypothesis left in any of them).
    B. Assemblies: chk_C09_bound, chk_C12_bound, chk_C11_base_bound
       (wf_strict implies hist_kinds_ok and wf_gleaves: wf_strict_kinds,
       wf_strict_gleaves, so these hypotheses are not needed).
@@ -98,14 +97,6 @@ Definition raw_only (rh : list rop) : Prop := forallb raw_op_ok rh = true.
 (* the interface types named by the As options *)
 Definition as_ifaces (l : list asarg) : list gty :=
   flat_map (fun a => match a with AsIface t => [t] | _ => [] end) l.
-
-(* side condition 1: no Provide repeats a type in its As list *)
-Definition as_distinct (rh : list rop) : Prop :=
-  forall s fn v o, In (RProvide s fn v o) rh -> NoDup (as_ifaces (po_as o)).
-
-(* side condition 2: every accepted decorator returns each key once *)
-Definition dec_distinct (rh : list rop) : Prop :=
-  forall s p, In (ODecorate s p) (map lower_op rh) -> NoDup (dec_keys (di_sig p)).
 
 (* what the lowering of an admissible raw operation can be *)
 Inductive lowered_shape : op -> Prop :=
@@ -197,6 +188,24 @@ Qed.
 Lemma as_types_NoDup : forall t l ats, as_types t l = POk ats -> NoDup l -> NoDup ats.
 Proof. intros t l ats H Hnd. destruct (as_types_spec t l ats H) as [-> _]. apply NoDup_filter. exact Hnd. Qed.
 
+(* the test [nodupb gty_eqb ats] of [new_result_optgroup] (error 42): on
+   declared interfaces it decides NoDup *)
+Lemma memb_giface_In : forall x l, is_giface x -> In x l -> memb gty_eqb x l = true.
+Proof.
+  intros x l [n ->]; induction l as [|y l IH]; intros Hin; [destruct Hin|].
+  cbn [memb]. destruct Hin as [->|Hin].
+  - cbn [gty_eqb]. rewrite Nat.eqb_refl. reflexivity.
+  - rewrite (IH Hin). apply orb_true_r.
+Qed.
+
+Lemma nodupb_giface_NoDup : forall l, Forall is_giface l -> nodupb gty_eqb l = true -> NoDup l.
+Proof.
+  induction l as [|x l IH]; intros HF H; [constructor|].
+  inversion HF as [|? ? Hx HF']; subst. cbn [nodupb] in H. apply andb_true_iff in H as [Hm Hn].
+  constructor; [|apply IH; assumption].
+  intros Hin. rewrite (memb_giface_In x l Hx Hin) in Hm. discriminate Hm.
+Qed.
+
 Lemma tcode_giface_inj : forall x y, is_giface x -> is_giface y -> tcode x = tcode y -> x = y.
 Proof. intros x y [n ->] [m ->] H. cbn in H. f_equal. lia. Qed.
 
@@ -235,14 +244,17 @@ Proof.
   - eapply finish_group_nd; [|exact H]. apply NoDup_single.
 Qed.
 
-Lemma new_result_optgroup_nd : forall dec t o g r, NoDup (ro_as o) ->
+(* no side condition: an interface listed twice in dig.As of a grouped result
+   is rejected (error 42) *)
+Lemma new_result_optgroup_nd : forall dec t o g r,
   new_result_optgroup dec t o g = POk r -> Forall rleaf_nd (decl_rleaves r).
 Proof.
-  intros dec t o g r Hnd H. unfold new_result_optgroup in H.
+  intros dec t o g r H. unfold new_result_optgroup in H.
   apply P_Parse.pbind_ok in H as (pg & _ & H).
   apply P_Parse.pbind_ok in H as (ats & Hats & H). cbv zeta in H.
-  pose proof (as_types_NoDup _ _ _ Hats Hnd) as Hnd'.
   destruct (as_types_spec _ _ _ Hats) as [_ HF].
+  destruct (nodupb gty_eqb ats) eqn:End; cbn [negb] in H; [|discriminate].
+  pose proof (nodupb_giface_NoDup _ HF End) as Hnd'.
   destruct (pg_soft pg); [discriminate|].
   destruct (pg_flatten pg).
   - destruct (negb (kind_eqb (kind_of t) KSlice)); [discriminate|].
@@ -259,12 +271,12 @@ Proof.
   destruct ats; injection H as <-; cbn; constructor; [exact I|constructor|exact I|constructor].
 Qed.
 
-Lemma result_fields_nd : forall dec o fs, NoDup (ro_as o) ->
-  Forall (fun f => forall o' r, NoDup (ro_as o') -> new_result dec (f_type f) o' = POk r ->
+Lemma result_fields_nd : forall dec o fs,
+  Forall (fun f => forall o' r, new_result dec (f_type f) o' = POk r ->
                                 Forall rleaf_nd (decl_rleaves r)) fs ->
   forall rs, P_Parse.result_fields dec o fs = POk rs -> Forall rleaf_nd (decl_rleaves_list rs).
 Proof.
-  intros dec o fs Hnd HF. induction HF as [|f fs Hf _ IH]; intros rs H.
+  intros dec o fs HF. induction HF as [|f fs Hf _ IH]; intros rs H.
   - injection H as <-. constructor.
   - destruct f as [ex em tg ft]. rewrite P_Parse.result_fields_cons in H.
     destruct (gty_eqb ft GOut); [apply IH; exact H|].
@@ -274,13 +286,13 @@ Proof.
     apply Forall_app. split; [|apply IH; exact Hrs].
     unfold P_Parse.result_field in Hr. destruct (tg_group tg).
     + eapply new_result_grouped_nd; exact Hr.
-    + eapply Hf; [|exact Hr]. exact Hnd.
+    + eapply Hf; exact Hr.
 Qed.
 
-Theorem new_result_nd : forall dec t o r, NoDup (ro_as o) -> new_result dec t o = POk r ->
+Theorem new_result_nd : forall dec t o r, new_result dec t o = POk r ->
   Forall rleaf_nd (decl_rleaves r).
 Proof.
-  intros dec t. induction t using P_Parse.gty_struct_ind; intros o r Hnd Hr; rewrite P_Parse.new_result_eq in Hr.
+  intros dec t. induction t using P_Parse.gty_struct_ind; intros o r Hr; rewrite P_Parse.new_result_eq in Hr.
   - destruct (is_in t || ptr_to is_in t || embeds t (GPtr GIn)); [discriminate|].
     destruct (is_error t); [discriminate|].
     destruct (is_out t) eqn:Hout.
@@ -305,10 +317,10 @@ Proof.
       * eapply new_result_single_nd; exact Hr.
 Qed.
 
-Lemma new_results_nd : forall dec ts o rs, NoDup (ro_as o) -> new_results dec ts o = POk rs ->
+Lemma new_results_nd : forall dec ts o rs, new_results dec ts o = POk rs ->
   Forall rleaf_nd (decl_rleaves_list rs).
 Proof.
-  intros dec ts o; induction ts as [|t ts IH]; intros rs Hnd H; cbn [new_results] in H.
+  intros dec ts o; induction ts as [|t ts IH]; intros rs H; cbn [new_results] in H.
   - injection H as <-. constructor.
   - destruct (is_error t); [apply IH; assumption|].
     apply P_Parse.pbind_ok in H as (r & Hr & H).
@@ -332,14 +344,14 @@ Proof.
   apply validate_as_ifaces. exact H.
 Qed.
 
-Theorem provide_parse_nd : forall fn v o p, NoDup (as_ifaces (po_as o)) ->
+Theorem provide_parse_nd : forall fn v o p,
   provide_parse fn v o = POk p -> Forall rleaf_nd (sig_rleaves (pi_sig p)).
 Proof.
-  intros fn v o p Hnd H. destruct v; try discriminate H. unfold provide_parse in H.
+  intros fn v o p H. destruct v; try discriminate H. unfold provide_parse in H.
   apply P_Parse.pbind_ok in H as (ats & Hats & H).
   apply P_Parse.pbind_ok in H as (ps & _ & H).
   apply P_Parse.pbind_ok in H as (rs & Hrs & H). injection H as <-. cbn [pi_sig]. unfold sig_rleaves. cbn [fs_results].
-  eapply new_results_nd; [|exact Hrs]. cbn [ro_as]. rewrite (validate_opts_ifaces _ _ Hats). exact Hnd.
+  eapply new_results_nd; exact Hrs.
 Qed.
 
 (* a decorator's group results carry one key each: no side condition *)
@@ -349,7 +361,7 @@ Proof.
   intros fn v cb p H. destruct v; try discriminate H. unfold decorate_parse in H.
   apply P_Parse.pbind_ok in H as (ps & _ & H).
   apply P_Parse.pbind_ok in H as (rs & Hrs & H). injection H as <-. cbn [di_sig]. unfold sig_rleaves. cbn [fs_results].
-  eapply new_results_nd; [|exact Hrs]. constructor.
+  eapply new_results_nd; exact Hrs.
 Qed.
 
 (* ---------- A.4 the four predicates on lowered histories ---------- *)
@@ -411,66 +423,62 @@ Proof.
   - destruct (invoke_parse fn v); discriminate H.
 Qed.
 
-Theorem lowered_wf : forall rh, raw_only rh -> as_distinct rh -> dec_distinct rh ->
+(* all four: no side condition (duplicate As entries of a grouped result are
+   rejected by the parse stage; duplicate decorator keys by [decorate]) *)
+Theorem lowered_wf : forall rh, raw_only rh ->
   let h := map lower_op rh in
   wf_keys h = true /\ hist_kinds_ok h = true /\ P_C03.wf_gleaves h = true /\ wf_strict h = true.
 Proof.
-  intros rh H HA HD h. destruct (lowered_wf_basic rh H) as (A & B & C). fold h in A, B, C.
+  intros rh H h. destruct (lowered_wf_basic rh H) as (A & B & C). fold h in A, B, C.
   split; [exact A|]. split; [exact B|]. split; [exact C|].
   subst h. apply forallb_map_lower. intros r Hr.
   pose proof (raw_only_In rh r H Hr) as Hs.
-  assert (Hin : In (lower_op r) (map lower_op rh)) by (apply in_map; exact Hr).
-  remember (lower_op r) as o eqn:Eo.
   destruct Hs as [p|k s f|s fn v po p Hp|s fn v cb p Hp|s fn v p Hp]; cbn [op_strict]; try reflexivity.
-  - apply sig_ok_wf_sig2; [eapply P_Parse.provide_parse_sig_ok; exact Hp|].
-    symmetry in Eo. destruct (lower_op_provide r s p Eo) as [(fn' & v' & o' & -> & Hp')| ->].
-    + eapply provide_parse_nd; [|exact Hp']. eapply HA. exact Hr.
-    + unfold raw_only in H. rewrite forallb_forall in H. specialize (H _ Hr). discriminate H.
-  - unfold wf_dsig2. apply andb_true_iff. split.
-    + apply sig_ok_wf_sig2; [eapply P_Parse.decorate_parse_sig_ok; exact Hp|]. eapply decorate_parse_nd; exact Hp.
-    + apply NoDup_nodupb_key. eapply HD. exact Hin.
+  - apply sig_ok_wf_sig2; [eapply P_Parse.provide_parse_sig_ok; exact Hp|]. eapply provide_parse_nd; exact Hp.
+  - apply sig_ok_wf_sig2; [eapply P_Parse.decorate_parse_sig_ok; exact Hp|]. eapply decorate_parse_nd; exact Hp.
   - apply sig_ok_leaves2. eapply P_Parse.invoke_parse_sig_ok; exact Hp.
 Qed.
 Print Assumptions lowered_wf.
 
-(* ---------- A.5 the side conditions are needed: what the parse model accepts ---------- *)
+(* ---------- A.5 the two former side conditions: both inputs are now rejected ---------- *)
 
 Module ParseFindings.
   Definition cfg0 : config := mkConfig false false false.
   Definition d0 : dur := fun _ _ => 0%N.
 
-  (* dig.Provide(func() T0, dig.Group("g1"), dig.As(new(I0), new(I0))): accepted by
-     the parse model (and by dig: As does not deduplicate); the group result
-     lists the key (I0, group g1) twice, so the value is submitted twice *)
+  (* dig.Provide(func() T0, dig.Group("g1"), dig.As(new(I0), new(I0))): formerly
+     accepted (As does not deduplicate; the group result listed the key
+     (I0, group g1) twice, the value was submitted twice and the provenance
+     checker reported 141).  Now rejected by the parse stage with error 42. *)
   Definition raw_dupas : list rop :=
     [ RProvide 0 1 (VFunc (mkFunc [] [GNamed 0] false))
         (mkPOpts 0 false (Some (mkGT 1 [])) false [AsIface (GIface 0); AsIface (GIface 0)] false false);
       RInvoke 0 3 (VFunc (mkFunc [GStruct [mkField true true notags GIn;
                                            mkField true false (mkTags 0 TBAbsent (Some (mkGT 1 [])) TBAbsent) (GSlice (GIface 0))]]
                                  [] false)) ].
+  Example raw_dupas_rejected :
+    provide_parse 1 (VFunc (mkFunc [] [GNamed 0] false))
+      (mkPOpts 0 false (Some (mkGT 1 [])) false [AsIface (GIface 0); AsIface (GIface 0)] false false) = PErr 42.
+  Proof. vm_compute. reflexivity. Qed.
   Example raw_dupas_lowered : map lower_op raw_dupas =
-    [ OProvide 0 (mkProvideIn 1 (mkSig [] [RGroup (KG 16 1) false [KG 16 1]] false) false false);
+    [ OBad BadProvide 0 1;
       OInvoke 0 (mkInvokeIn 3 (mkSig [PObj [PGroup (KG 16 1) false]] [] false)) ].
   Proof. vm_compute. reflexivity. Qed.
-  (* all conventions but wf_strict hold; the member is delivered twice and the
-     provenance checker reports 141 *)
+  (* all conventions hold; nothing is registered, the group is empty and the
+     provenance checker is silent *)
   Example raw_dupas_finding :
     let h := map lower_op raw_dupas in
     (forallb raw_op_ok raw_dupas, wf_scopes h, wf_keys h, hist_kinds_ok h, P_C03.wf_gleaves h, wf_strict h,
      nth 1 (map oo_events (map obs_of (run cfg0 (beh_of []) d0 h))) [],
      chk_prov [] h (map obs_of (run cfg0 (beh_of []) d0 h))) =
-    (true, true, true, true, true, false,
-     [EExec 1 0 RoleCtor [] (OOk []); EExec 3 0 RoleInv [ASlice [AProd 1 0 0 0; AProd 1 0 0 0]] (OOk [])],
-     [(1, 141)]).
+    (true, true, true, true, true, true,
+     [EExec 3 0 RoleInv [ASlice []] (OOk [])],
+     []).
   Proof. vm_compute. reflexivity. Qed.
-  Example raw_dupas_not_distinct : ~ as_distinct raw_dupas.
-  Proof.
-    intros H. specialize (H _ _ _ _ (or_introl eq_refl)). cbn in H.
-    inversion H as [|? ? Hn _]; subst. apply Hn. left; reflexivity.
-  Qed.
 
-  (* dig.Decorate(func(T0) (T0, T0)): accepted by the parse model; dec_keys
-     lists the key twice *)
+  (* dig.Decorate(func(T0) (T0, T0)): accepted by the parse stage (dec_keys lists
+     the key twice), now rejected by [decorate] (err_dec_dup); formerly accepted,
+     and the provenance checker reported 110 *)
   Definition raw_dupdec : list rop :=
     [ RProvide 0 1 (VFunc (mkFunc [] [GNamed 0] false)) (mkPOpts 0 false None false [] false false);
       RDecorate 0 2 (VFunc (mkFunc [GNamed 0] [GNamed 0; GNamed 0] false)) false;
@@ -483,14 +491,11 @@ Module ParseFindings.
   Example raw_dupdec_finding :
     let h := map lower_op raw_dupdec in
     (forallb raw_op_ok raw_dupdec, wf_scopes h, wf_keys h, hist_kinds_ok h, P_C03.wf_gleaves h, wf_strict h,
+     map oo_verdict (map obs_of (run cfg0 (beh_of []) d0 h)),
      chk_prov [] h (map obs_of (run cfg0 (beh_of []) d0 h))) =
-    (true, true, true, true, true, false, [(2, 110)]).
+    (true, true, true, true, true, true,
+     [OVOk; overdict_of (VErr err_dec_dup); OVOk], []).
   Proof. vm_compute. reflexivity. Qed.
-  Example raw_dupdec_not_distinct : ~ dec_distinct raw_dupdec.
-  Proof.
-    intros H. specialize (H 0 _ (or_intror (or_introl eq_refl))). vm_compute in H.
-    inversion H as [|? ? Hn _]; subst. apply Hn. left; reflexivity.
-  Qed.
 
   (* a raw history with nested dig.In objects, named and optional fields, value
      groups (soft, flatten), As, a variadic parameter, an error result, a
@@ -541,18 +546,8 @@ Module ParseFindings.
      wf_keys h, hist_kinds_ok h, P_C03.wf_gleaves h, wf_strict h) =
     (true, true, true, true, true, true, true).
   Proof. vm_compute. reflexivity. Qed.
-  Example raw_good_sides : raw_only raw_good /\ as_distinct raw_good /\ dec_distinct raw_good.
-  Proof.
-    split; [reflexivity|]. split.
-    - intros s fn v o Hin. cbn in Hin.
-      repeat (destruct Hin as [Hin|Hin]; [try discriminate Hin; injection Hin as <- <- <- <-; cbn;
-                                           repeat (constructor; [cbn; intuition discriminate|]); constructor|]).
-      destruct Hin.
-    - intros s p Hin. rewrite raw_good_lowered in Hin. cbn in Hin.
-      repeat (destruct Hin as [Hin|Hin]; [try discriminate Hin; injection Hin as <- <-; vm_compute;
-                                           repeat (constructor; [cbn; intuition discriminate|]); constructor|]).
-      destruct Hin.
-  Qed.
+  Example raw_good_sides : raw_only raw_good.
+  Proof. reflexivity. Qed.
 End ParseFindings.
 
 (* ---------- A.6 headline theorems restated for raw histories ---------- *)
@@ -597,13 +592,13 @@ Proof.
 Qed.
 Print Assumptions C03_raw.
 
-(* provenance: here the two side conditions remain *)
-Theorem prov_raw : forall cfg bt du rh, raw_only rh -> as_distinct rh -> dec_distinct rh ->
+(* provenance: no side condition is left *)
+Theorem prov_raw : forall cfg bt du rh, raw_only rh ->
   wf_scopes (map lower_op rh) = true -> P_Once.wf_fns (map lower_op rh) = true -> cfg_dry cfg = false ->
   forall i c, In (i, c) (chk_prov bt (map lower_op rh) (map obs_of (run cfg (beh_of bt) du (map lower_op rh)))) ->
     c = 112 \/ c = 132 \/ (c = 120 /\ has_opt (map lower_op rh) = true /\ has_dec (map lower_op rh) = true).
 Proof.
-  intros cfg bt du rh H HA HD Hs Hf Hdry. destruct (lowered_wf rh H HA HD) as (_ & _ & _ & St).
+  intros cfg bt du rh H Hs Hf Hdry. destruct (lowered_wf rh H) as (_ & _ & _ & St).
   apply prov_refines; assumption.
 Qed.
 Print Assumptions prov_raw.
@@ -630,7 +625,7 @@ Proof.
   { intros ls Hl. rewrite forallb_forall in *. intros l Hin. specialize (Hl l Hin). destruct l; [reflexivity|exact Hl]. }
   destruct o as [p|s p|s p|s p|k s f]; cbn [op_strict P_C03.op_gleaves_ok] in *; try reflexivity.
   - unfold wf_sig2 in H. apply andb_true_iff in H as [H _]. apply G. exact H.
-  - unfold wf_dsig2, wf_sig2 in H. apply andb_true_iff in H as [H _]. apply andb_true_iff in H as [H _]. apply G. exact H.
+  - unfold wf_sig2 in H. apply andb_true_iff in H as [H _]. apply G. exact H.
   - apply G. exact H.
 Qed.
 
@@ -675,22 +670,22 @@ Proof.
 Qed.
 Print Assumptions chk_C11_base_bound.
 
-(* the same three for raw histories: only the two distinctness side conditions remain *)
-Theorem C09_raw : forall cfg bt du rh, raw_only rh -> as_distinct rh -> dec_distinct rh ->
+(* the same three for raw histories: no side condition remains *)
+Theorem C09_raw : forall cfg bt du rh, raw_only rh ->
   wf_scopes (map lower_op rh) = true -> P_Once.wf_fns (map lower_op rh) = true -> cfg_dry cfg = false ->
   forall i c, In (i, c) (chk_C09 bt (map lower_op rh) (map obs_of (run cfg (beh_of bt) du (map lower_op rh)))) ->
     Bound (map lower_op rh) c.
 Proof.
-  intros cfg bt du rh H HA HD Hs Hf Hdry. destruct (lowered_wf rh H HA HD) as (_ & _ & _ & St).
+  intros cfg bt du rh H Hs Hf Hdry. destruct (lowered_wf rh H) as (_ & _ & _ & St).
   apply chk_C09_bound; assumption.
 Qed.
 
-Theorem C12_raw : forall cfg bt du rh, raw_only rh -> as_distinct rh -> dec_distinct rh ->
+Theorem C12_raw : forall cfg bt du rh, raw_only rh ->
   wf_scopes (map lower_op rh) = true -> P_Once.wf_fns (map lower_op rh) = true -> cfg_dry cfg = false ->
   forall i c, In (i, c) (chk_C12 bt (map lower_op rh) (map obs_of (run cfg (beh_of bt) du (map lower_op rh)))) ->
     Bound (map lower_op rh) c.
 Proof.
-  intros cfg bt du rh H HA HD Hs Hf Hdry. destruct (lowered_wf rh H HA HD) as (_ & _ & _ & St).
+  intros cfg bt du rh H Hs Hf Hdry. destruct (lowered_wf rh H) as (_ & _ & _ & St).
   apply chk_C12_bound; assumption.
 Qed.
 Print Assumptions C12_raw.
@@ -1666,13 +1661,13 @@ Proof.
 Qed.
 
 (* for raw histories *)
-Theorem C11_raw : forall cfg bt du rh, raw_only rh -> as_distinct rh -> dec_distinct rh ->
+Theorem C11_raw : forall cfg bt du rh, raw_only rh ->
   wf_scopes (map lower_op rh) = true -> P_Once.wf_fns (map lower_op rh) = true -> cfg_dry cfg = false ->
   forall i c, In (i, c) (chk_C11 bt (map lower_op rh) (map obs_of (run cfg (beh_of bt) du (map lower_op rh)))) ->
     c = 112 \/ c = 132 \/
     ((c = 120 \/ c = 152) /\ has_opt (map lower_op rh) = true /\ has_dec (map lower_op rh) = true).
 Proof.
-  intros cfg bt du rh H HA HD Hs Hf Hdry. destruct (lowered_wf rh H HA HD) as (_ & _ & _ & St).
+  intros cfg bt du rh H Hs Hf Hdry. destruct (lowered_wf rh H) as (_ & _ & _ & St).
   apply chk_C11_bound; assumption.
 Qed.
 Print Assumptions C11_raw.
